@@ -30,3 +30,14 @@ Print Assumptions C18_arcs_are_dfa_moves.
 Theorem C18_weights_positive : forall k, k <> O -> (0 < invK k)%Qc.
 Proof. intros; apply regex_weights_positive; assumption. Qed.
 Print Assumptions C18_weights_positive.
+
+(* With the live set computed relative to the character set (model/RegexLive.v, mirroring the code),
+   every state an arc leads to has a positive fan-out and is therefore normalised: no dead ends. *)
+From GV.model Require Import RegexLive.
+From GV.proofs Require Import RegexLiveProofs.
+Theorem C18_no_dead_ends : forall charset D i x j w outs_j,
+  In (i, x, j, w) (re_arcs charset (with_live charset D)) -> In (j, outs_j) (d_map D) ->
+  (forall e1 e2, In e1 (d_map D) -> In e2 (d_map D) -> fst e1 = fst e2 -> e1 = e2) ->
+  fanout charset (with_live charset D) j outs_j <> O /\ re_mass charset (with_live charset D) (j, outs_j) = 1%Qc.
+Proof. intros; split; [eapply with_live_targets_positive|eapply with_live_targets_normalised]; eassumption. Qed.
+Print Assumptions C18_no_dead_ends.
